@@ -178,6 +178,8 @@ impl RtpsWriterProxy {
 
     // Iterate over all SequenceNumbers (indices) in the advertised range.
     for s in relevant_interval {
+      #[cfg(rustdds_verif)]
+      crate::verif::hooks::tick();
       match known_head {
         None => missing_seqnums.push(s), // no known changes left => s is missing
         Some(known_sn) => {
@@ -283,6 +285,8 @@ impl RtpsWriterProxy {
       for na in
         SequenceNumber::range_inclusive(remove_from, remove_until_before - SequenceNumber::new(1))
       {
+        #[cfg(rustdds_verif)]
+        crate::verif::hooks::tick();
         self.changes.insert(na, None);
       }
     }
@@ -340,6 +344,8 @@ impl RtpsWriterProxy {
     let mut test_sn = self.ack_base;
 
     for (&sn, _what) in self.changes.range((Included(&self.ack_base), Unbounded)) {
+      #[cfg(rustdds_verif)]
+      crate::verif::hooks::tick();
       if sn == test_sn {
         // test_sn found from changes, ack_base can be set to test_sn + 1
         test_sn = test_sn + SequenceNumber::new(1);
